@@ -126,7 +126,8 @@ Qed.
 (** a thread that is owed a STOP (or has it queued) ... *)
 Lemma progress_up : forall s, InvE s -> InvD s -> InvL s -> mquit (pc (th s 0)) = false ->
   (forall c, owes (pc (th s 0)) c = true -> can_progress s 0) ->
-  forall n c, c <= n -> helper c -> se (th s c) < se (th s 0) -> exists t, t <= N /\ can_progress s t.
+  forall n c, c <= n -> helper c -> se (th s c) < se (th s 0) ->
+  exists t, t <= N /\ can_progress s t /\ (helper t \/ exists c', owes (pc (th s 0)) c' = true).
 Proof.
   intros s I D L Hq Hm0. induction n as [|n IH]; intros c Hcn Hc Hlt.
   - unfold WorkersInv.helper in Hc; lia.
@@ -137,8 +138,9 @@ Proof.
     + (* the parent still has to push the STOP *)
       exists p. split; auto.
       destruct p as [|p'].
-      * apply (Hm0 c Ho).
+      * split; [apply (Hm0 c Ho)|]. right. exists c. exact Ho.
       * assert (Hph : helper (S p')) by (unfold WorkersInv.helper in *; lia).
+        split; [|left; auto].
         apply (helper_progress s (S p') I D Hph).
         -- intros E. rewrite E in Ho. discriminate.
         -- intros E. rewrite E in Ho. discriminate.
@@ -152,6 +154,7 @@ Proof.
         exists c. split; [apply helper_le; auto|].
         assert (Hne : qu s c <> []) by (intros E; rewrite E in Hs; discriminate).
         destruct (d_quit _ _ D Hq c Hc) as (_ & _ & Q3).
+        split; [|left; auto].
         apply (helper_progress s c I D Hc).
         -- intros E. rewrite E in Q3. discriminate.
         -- intros E. destruct (l_q _ _ L c Hc Hne) as [F|F]; auto. rewrite E in F. discriminate.
@@ -161,7 +164,7 @@ Qed.
 Lemma progress_down : forall s, InvE s -> InvD s -> InvL s -> mquit (pc (th s 0)) = false ->
   (forall c, owes (pc (th s 0)) c = true -> can_progress s 0) ->
   forall k c, helper c -> N - c <= k -> se (th s c) = se (th s 0) -> ae (th s c) < se (th s c) ->
-  exists t, t <= N /\ can_progress s t.
+  exists t, t <= N /\ can_progress s t /\ (helper t \/ exists c', owes (pc (th s 0)) c' = true).
 Proof.
   intros s I D L Hq Hm0. induction k as [|k IH]; intros c Hc Hk Hse Hae.
   - (* c = N: same argument without the recursive case; handled uniformly below *)
@@ -169,7 +172,7 @@ Proof.
     destruct (d_quit _ _ D Hq N Hc) as (_ & _ & Q3).
     destruct (e_g2 _ _ _ I N Hc) as (_ & _ & G2).
     destruct (d_round _ _ D N Hc ltac:(lia)) as [R|[R|R]].
-    + exists N. split; auto. apply (helper_progress s N I D Hc).
+    + exists N. split; auto. split; [|left; auto]. apply (helper_progress s N I D Hc).
       * intros E; rewrite E in Q3; discriminate.
       * intros E. destruct (l_wait _ _ L N Hc (or_introl E)) as (X & _). congruence.
     + (* wc > 0: a pending child would have a larger number than N *)
@@ -177,13 +180,15 @@ Proof.
       assert (P1 : 1 <= npending N parent s N) by lia.
       destruct (count_pos_ex _ _ P1) as (g & Hg & _). apply in_children in Hg. destruct Hg as (Hg & Hgp).
       destruct (parent_le N parent Htree g N Hg Hgp). unfold WorkersInv.helper in Hg. lia.
-    + exists N. split; auto. apply (helper_progress s N I D Hc).
+    + exists N. split; auto. split; [|left; auto]. apply (helper_progress s N I D Hc).
       * intros E; rewrite E in Q3; discriminate.
       * intros E. rewrite E in R. discriminate.
   - destruct (d_quit _ _ D Hq c Hc) as (_ & _ & Q3).
     destruct (e_g2 _ _ _ I c Hc) as (_ & _ & G2).
-    assert (Hprog : (pc (th s c) = PWait KMain -> flag s c = true) -> exists t, t <= N /\ can_progress s t).
-    { intros Hw. exists c. split; [apply helper_le; auto|]. apply (helper_progress s c I D Hc); auto.
+    assert (Hprog : (pc (th s c) = PWait KMain -> flag s c = true) ->
+              exists t, t <= N /\ can_progress s t /\ (helper t \/ exists c', owes (pc (th s 0)) c' = true)).
+    { intros Hw. exists c. split; [apply helper_le; auto|]. split; [|left; auto].
+      apply (helper_progress s c I D Hc); auto.
       intros E; rewrite E in Q3; discriminate. }
     destruct (d_round _ _ D c Hc ltac:(lia)) as [R|[R|R]].
     + apply Hprog. intros E. destruct (l_wait _ _ L c Hc (or_introl E)) as (X & _). congruence.
@@ -203,40 +208,60 @@ Proof.
     + apply Hprog. intros E. rewrite E in R. discriminate.
 Qed.
 
+Lemma stop_not_quit : forall pcv, mphase pcv = Some PhStop -> mquit pcv = false.
+Proof.
+  intros pcv Hm. destruct pcv; cbn in *; try discriminate; auto.
+  - destruct k; try discriminate; auto.
+  - destruct k; try discriminate; auto.
+  - destruct w; try discriminate; auto. destruct k; discriminate.
+Qed.
+
+(** the engine thread waits for acknowledgements, its mailbox is empty and it owes no STOP:
+    some HELPER thread can make progress *)
+Lemma pending_helper : forall s, InvE s -> InvD s -> InvL s -> mquit (pc (th s 0)) = false ->
+  qu s 0 = [] -> wc (th s 0) <> 0%Z -> (forall c, owes (pc (th s 0)) c = false) ->
+  exists c, helper c /\ can_progress s c.
+Proof.
+  intros s I D L Hq Hqe Wn Ho.
+  assert (Hm0 : forall c, owes (pc (th s 0)) c = true -> can_progress s 0).
+  { intros c X. rewrite Ho in X. discriminate. }
+  pose proof (e_w1 _ _ _ I 0 (Nat.le_0_l _)) as W1.
+  assert (P1 : 1 <= npending N parent s 0) by lia.
+  destruct (count_pos_ex _ _ P1) as (g & Hg & Pg). apply in_children in Hg. destruct Hg as (Hg & Hgp).
+  unfold pendingb in Pg. rewrite Hqe, acks_nil in Pg. apply Nat.ltb_lt in Pg.
+  destruct (e_g1 _ _ _ I g (helper_le _ _ Hg)) as (_ & G1).
+  destruct (e_g2 _ _ _ I g Hg) as (_ & G2g & _).
+  assert (X : exists t, t <= N /\ can_progress s t /\ (helper t \/ exists c', owes (pc (th s 0)) c' = true)).
+  { destruct (Nat.eq_dec (se (th s g)) (se (th s 0))) as [Eg|Ng].
+    - apply (progress_down s I D L Hq Hm0 (N - g) g Hg (le_n _) Eg). lia.
+    - apply (progress_up s I D L Hq Hm0 g g (le_n _) Hg). lia. }
+  destruct X as (t & Ht & Hp & [Hh|(c' & Hc')]).
+  - exists t; auto.
+  - rewrite Ho in Hc'. discriminate.
+Qed.
+
 (** no deadlock while the engine thread collects the stop acknowledgements *)
 Theorem stop_no_deadlock_inv : forall s, InvE s -> InvD s -> InvL s ->
   mphase (pc (th s 0)) = Some PhStop ->
   exists t a s', t <= N /\ step N parent s t a = Some s' /\ s' <> s.
 Proof.
   intros s I D L Hm.
-  assert (Hq : mquit (pc (th s 0)) = false).
-  { destruct (pc (th s 0)); cbn in *; try discriminate; auto.
-    - destruct k; try discriminate; auto.
-    - destruct k; try discriminate; auto.
-    - destruct w; try discriminate; auto. destruct k; discriminate. }
-  assert (Hm0 : forall c, owes (pc (th s 0)) c = true -> can_progress s 0).
-  { intros c Ho. apply master_progress_stop; auto. intros E. rewrite E in Ho. discriminate. }
+  pose proof (stop_not_quit _ Hm) as Hq.
   assert (Hres : exists t, t <= N /\ can_progress s t).
   { destruct (pc (th s 0)) eqn:Hpc; cbn in Hm; try discriminate.
     - (* PWait KAck *)
       destruct k; cbn in Hm; try discriminate.
-      rewrite <- Hpc in Hq, Hm0.
+      rewrite <- Hpc in Hq.
       destruct (flag s 0) eqn:Hf.
-      + exists 0. split; [lia|]. apply master_progress_stop; auto. rewrite Hpc; auto.
+      + exists 0. split; [lia|]. apply master_progress_stop; auto; rewrite Hpc; auto.
       + assert (Hqe : qu s 0 = []).
         { destruct (qu s 0) eqn:E; auto. exfalso.
           assert (X : qu s 0 <> []) by (rewrite E; discriminate).
           pose proof (l_mq _ _ L (or_introl Hpc) X). congruence. }
         pose proof (d_mwait _ _ D Hpc) as Wn.
-        pose proof (e_w1 _ _ _ I 0 (Nat.le_0_l _)) as W1.
-        assert (P1 : 1 <= npending N parent s 0) by lia.
-        destruct (count_pos_ex _ _ P1) as (g & Hg & Pg). apply in_children in Hg. destruct Hg as (Hg & Hgp).
-        unfold pendingb in Pg. rewrite Hqe, acks_nil in Pg. apply Nat.ltb_lt in Pg.
-        destruct (e_g1 _ _ _ I g (helper_le _ _ Hg)) as (_ & G1).
-        destruct (e_g2 _ _ _ I g Hg) as (_ & G2g & _).
-        destruct (Nat.eq_dec (se (th s g)) (se (th s 0))) as [Eg|Ng].
-        * apply (progress_down s I D L Hq Hm0 (N - g) g Hg (le_n _) Eg). lia.
-        * apply (progress_up s I D L Hq Hm0 g g (le_n _) Hg). lia.
+        destruct (pending_helper s I D L Hq Hqe Wn) as (c & Hc & Hp).
+        * intros c. rewrite Hpc. reflexivity.
+        * exists c. split; [apply helper_le; auto|auto].
     - exists 0. split; [lia|]. apply master_progress_stop; auto; rewrite Hpc; auto. intros E; discriminate.
     - exists 0. split; [lia|]. apply master_progress_stop; auto; rewrite Hpc; auto. intros E; discriminate.
     - exists 0. split; [lia|]. apply master_progress_stop; auto; rewrite Hpc; auto. intros E; discriminate. }
